@@ -401,6 +401,7 @@ std::pair<double, double> GMGPolar::computeExactError(Level& level, const Vector
     {
 #pragma omp for nowait
         for (int i_r = 0; i_r < grid.numberSmootherCircles(); i_r++) {
+            VERIF_ITER(i_r);
             double r = grid.radius(i_r);
             for (int i_theta = 0; i_theta < grid.ntheta(); i_theta++) {
                 double theta                    = grid.theta(i_theta);
@@ -412,6 +413,7 @@ std::pair<double, double> GMGPolar::computeExactError(Level& level, const Vector
         }
 #pragma omp for nowait
         for (int i_theta = 0; i_theta < grid.ntheta(); i_theta++) {
+            VERIF_ITER(i_theta);
             double theta     = grid.theta(i_theta);
             double sin_theta = sin_theta_cache[i_theta];
             double cos_theta = cos_theta_cache[i_theta];
@@ -446,6 +448,7 @@ void GMGPolar::extrapolatedResidual(const int current_level, Vector<double>& res
 /* For loop matches circular access pattern */
 #pragma omp for nowait
         for (int i_r = 0; i_r < fineGrid.numberSmootherCircles(); i_r++) {
+            VERIF_ITER(i_r);
             int i_r_coarse = i_r / 2;
             for (int i_theta = 0; i_theta < fineGrid.ntheta(); i_theta++) {
                 int i_theta_coarse = i_theta / 2;
@@ -465,6 +468,7 @@ void GMGPolar::extrapolatedResidual(const int current_level, Vector<double>& res
 /* For loop matches radial access pattern */
 #pragma omp for nowait
         for (int i_theta = 0; i_theta < fineGrid.ntheta(); i_theta++) {
+            VERIF_ITER(i_theta);
             int i_theta_coarse = i_theta / 2;
             for (int i_r = fineGrid.numberSmootherCircles(); i_r < fineGrid.nr(); i_r++) {
                 int i_r_coarse = i_r / 2;
